@@ -30,6 +30,7 @@ type RWMutex struct {
 	writer   *simrt.Task
 	readers  map[*simrt.Task]int
 	pendingW int
+	pendingR int // readers parked behind a writer (scheduling hint only)
 	id       int
 }
 
@@ -130,6 +131,9 @@ func (m *RWMutex) Unlock() {
 	}
 	m.writer.Holding[m.name()+"(w)"]--
 	m.writer = nil
+	if m.pendingW > 0 || m.pendingR > 0 {
+		simrt.HandOff()
+	}
 }
 
 func (m *RWMutex) RLock() {
@@ -156,9 +160,11 @@ func (m *RWMutex) RLock() {
 		return
 	}
 	if m.writer != nil || m.pendingW > 0 {
+		m.pendingR++
 		simrt.ParkCond("RLock "+site, "read lock "+m.name()+m.holders(), func() bool {
 			return m.writer == nil && m.pendingW == 0
 		})
+		m.pendingR--
 	}
 	if m.readers == nil {
 		m.readers = map[*simrt.Task]int{}
